@@ -3,15 +3,22 @@ From Coq Require Import PeanoNat.
 From Verif Require Import Percolator.Event Percolator.System Percolator.Trace
   Percolator.ProofsTrace0 Percolator.ProofsTrace2 Percolator.ProofsTrace3.
 
-Ltac csimp := cbn [cn setn incn fld_eqb c_lm c_pwok set_muts add_pwok].
-Ltac csimp_in H := cbn [cn setn incn fld_eqb c_lm c_pwok set_muts add_pwok] in H.
-Ltac fsimp := cbn [is_cm_send is_pc_send is_pc_reply is_pc_neg is_pw_send is_pw_reply is_cmok negb].
+Ltac csimp := unfold kcnt; cbn [cn setn incn fld_eqb c_lm c_pwok c_kl set_muts add_pwok add_kl].
+Ltac csimp_in H := unfold kcnt in H; cbn [cn setn incn fld_eqb c_lm c_pwok c_kl set_muts add_pwok add_kl] in H.
+Ltac fsimp := cbn [is_cm_send is_pc_send is_pc_reply is_pc_neg is_pw_send is_pw_reply is_cmok negb
+                   pw_send_occ pw_negreply_occ is_pwneg].
+Ltac ksimp := rewrite ?kcnt_l_add_same; rewrite ?kcnt_l_add_other by reflexivity.
+(* the per-key accounting clauses *)
+Ltac kcl C :=
+  let k0 := fresh "k" in
+  csimp; intros k0; rewrite ?sum_of_snoc; fsimp; ksimp; rewrite ?N.eqb_refl; cbn [andb];
+  specialize (C k0); unfold kcnt in C; lia.
 Ltac snoc_in H := apply in_snoc in H; destruct H as [H | H]; [| try discriminate H].
 Ltac hsolve :=
   csimp; intros;
   repeat match goal with H : In _ (_ ++ [_]) |- _ => snoc_in H end;
   try match goal with |- context [if ?b then is_cm_send _ else _] => destruct b eqn:? end;
-  rewrite ?count_if_snoc; fsimp; rewrite ?Nat.add_0_r;
+  rewrite ?count_if_snoc, ?sum_of_snoc; fsimp; rewrite ?Nat.add_0_r;
   eauto.
 Ltac call_other C18 :=
   let pre1 := fresh "pre1" in let pre2 := fresh "pre2" in let cz := fresh "cz" in
@@ -25,7 +32,7 @@ Lemma ht_commit_call pre v T cz c :
   HG pre v -> HT T pre c ->
   HT T (pre ++ [ECommitCall T cz]) (setn (setn (setn c FCalled 1) FCausal (if cz then 1 else 0)) FWm (v_tso v)).
 Proof.
-  intros G [C1 C2 C3 C4 C5 C6 C7 C8 C9 C10 C11 C12 C13 C14 C15 C16 C17 C18].
+  intros G [C1 C2 C3 C4 C5 C6 C7 C8 C9 C10 C11 C12 C13 C14 C15 C16 C17 C18 C19 C20 C21 C22 C23 C24 C25].
   constructor; try solve [hsolve].
   csimp. intros pre1 pre2 cz0 Hd Hno. apply snoc_split in Hd.
   destruct Hd as [(-> & Hd & ->) | (q & -> & ->)].
@@ -39,10 +46,10 @@ Lemma reply_has_send pre v r T C ks x : HG pre v -> In (ECmReply r T C ks x) pre
 Proof. intros G H. apply (g_sent _ _ G). eapply (g_dlv _ _ G). eapply (g_rep _ _ G). exact H. Qed.
 
 Lemma ht_mutations pre v T p ms c :
-  HG pre v -> HT T pre c -> cn c FHasm = 0 -> cn c FPwSent = 0 -> cn c FPcSent = 0 ->
+  HG pre v -> HT T pre c -> cn c FHasm = 0 -> cn c FPwSent = 0 -> cn c FPcSent = 0 -> In p (lock_keys ms) ->
   HT T (pre ++ [EMutations T p ms]) (set_muts (setn (setn c FHasm 1) FPrim p) (lock_keys ms) (map fst ms)).
 Proof.
-  intros G [C1 C2 C3 C4 C5 C6 C7 C8 C9 C10 C11 C12 C13 C14 C15 C16 C17 C18] Hh Hpw Hpc.
+  intros G [C1 C2 C3 C4 C5 C6 C7 C8 C9 C10 C11 C12 C13 C14 C15 C16 C17 C18 C19 C20 C21 C22 C23 C24 C25] Hh Hpw Hpc Hlk.
   assert (NS : forall r C ks, ~ In (ECmSend r T C ks) pre).
   { intros r C ks Hi. rewrite Hh, Hpc in C8. cbn [N.eqb] in C8.
     assert (Hz : count_if (is_cm_send T) pre = 0%nat) by lia.
@@ -70,15 +77,20 @@ Proof.
     destruct (s =? T) eqn:E; [|reflexivity]. apply N.eqb_eq in E. subst. exfalso. eapply NR; eauto.
   - csimp. intros H. congruence.
   - csimp. intros _ r C ks H. snoc_in H. exfalso. eapply NS; eauto.
+  - intros p0 ms0 H. snoc_in H; [eauto|]. inversion H; subst. exact Hlk.
 Qed.
 
 Lemma ht_pw_send pre T r p ks a o m f secs c :
-  HT T pre c -> HT T (pre ++ [EPwSend r T p ks a o m f secs]) (pw_send_rec c a o).
+  HT T pre c -> HT T (pre ++ [EPwSend r T p ks a o m f secs]) (pw_send_rec c ks a o).
 Proof.
-  intros [C1 C2 C3 C4 C5 C6 C7 C8 C9 C10 C11 C12 C13 C14 C15 C16 C17 C18].
+  intros [C1 C2 C3 C4 C5 C6 C7 C8 C9 C10 C11 C12 C13 C14 C15 C16 C17 C18 C19 C20 C21 C22 C23 C24 C25].
   unfold pw_send_rec. cbv zeta.
   destruct a, o; (constructor; try solve [hsolve]; try solve [call_other C18]).
   all: try solve [csimp; intros _; do 7 eexists; apply in_snoc; right; reflexivity].
+  all: try solve [csimp; intros; lia].
+  all: try solve [kcl C21].
+  all: try solve [kcl C22].
+  all: try solve [csimp; intros _; left; do 7 eexists; apply in_snoc; right; reflexivity].
   all: csimp; rewrite count_if_snoc; fsimp; rewrite N.eqb_refl; lia.
 Qed.
 
@@ -93,15 +105,32 @@ Ltac pwr_close C3 C14 r ks m :=
 Lemma ht_pw_reply pre T r ks x c :
   HT T pre c -> HT T (pre ++ [EPwReply r T ks x]) (pw_reply_rec c ks x).
 Proof.
-  intros [C1 C2 C3 C4 C5 C6 C7 C8 C9 C10 C11 C12 C13 C14 C15 C16 C17 C18].
+  intros [C1 C2 C3 C4 C5 C6 C7 C8 C9 C10 C11 C12 C13 C14 C15 C16 C17 C18 C19 C20 C21 C22 C23 C24 C25].
   unfold pw_reply_rec. cbv zeta.
   destruct x as [m o | kd |].
-  - destruct (o =? 0) eqn:Eo; [destruct (fb _ FTried1) |]; destruct (m =? 0) eqn:Em;
+  - assert (Hmc : N.max (cn c FMinc) m <> 0 ->
+                  has_minc (pre ++ [EPwReply r T ks (PwOk m o)]) T (N.max (cn c FMinc) m)).
+    { intros Hx. destruct (N.max_spec (cn c FMinc) m) as [[_ Hq] | [_ Hq]]; rewrite Hq in *.
+      - exists r, ks, o. apply in_snoc. right. reflexivity.
+      - apply has_minc_mono. apply C24. exact Hx. }
+    assert (Hf1 : fb c FTried1 = true -> fb_reason (pre ++ [EPwReply r T ks (PwOk m o)]) T).
+    { intros Et. right. right. apply has_onepc_mono. apply C7. apply fb_true. exact Et. }
+    assert (Hf2 : (m =? 0) = true -> fb_reason (pre ++ [EPwReply r T ks (PwOk m o)]) T).
+    { intros Em. apply N.eqb_eq in Em. subst m. right. left. exists r, ks, o. apply in_snoc. right. reflexivity. }
+    destruct (o =? 0) eqn:Eo; [destruct (fb c FTried1) eqn:Et |]; destruct (m =? 0) eqn:Em;
       (constructor; try solve [hsolve]; try solve [call_other C18]).
+    all: try solve [csimp; exact Hmc].
+    all: try solve [csimp; intros _; auto].
+    all: try solve [kcl C21].
+    all: try solve [kcl C22].
     all: pwr_close C3 C14 r ks m.
   - constructor; try solve [hsolve]; try solve [call_other C18].
+    all: try solve [kcl C21].
+    all: try solve [kcl C22].
     csimp; rewrite count_if_snoc; fsimp; rewrite N.eqb_refl; lia.
   - constructor; try solve [hsolve]; try solve [call_other C18].
+    all: try solve [kcl C21].
+    all: try solve [kcl C22].
     csimp; rewrite count_if_snoc; fsimp; rewrite N.eqb_refl; lia.
 Qed.
 
@@ -110,7 +139,7 @@ Lemma ht_cm_send pre T r C ks c :
   HT T (pre ++ [ECmSend r T C ks])
      (if (cn c FHasm =? 0) || mem (cn c FPrim) ks then incn c FPcSent else c).
 Proof.
-  intros [C1 C2 C3 C4 C5 C6 C7 C8 C9 C10 C11 C12 C13 C14 C15 C16 C17 C18] Hts.
+  intros [C1 C2 C3 C4 C5 C6 C7 C8 C9 C10 C11 C12 C13 C14 C15 C16 C17 C18 C19 C20 C21 C22 C23 C24 C25] Hts.
   assert (Hcm : cn c FHasm <> 0 -> forall r0 C0 ks0, In (ECmSend r0 T C0 ks0) (pre ++ [ECmSend r T C ks]) -> T < C0).
   { intros Hh r0 C0 ks0 H. snoc_in H; [eauto | inversion H; subst; auto]. }
   destruct (cn c FHasm =? 0) eqn:Eh; [| destruct (mem (cn c FPrim) ks) eqn:Em]; cbn [orb];
@@ -124,7 +153,7 @@ Lemma ht_cm_reply_prim pre T r C ks x c :
   HT T pre c -> cn c FHasm <> 0 -> mem (cn c FPrim) ks = true -> (x = CmOk -> C <> 0) ->
   HT T (pre ++ [ECmReply r T C ks x]) (cm_reply_rec c C x).
 Proof.
-  intros [C1 C2 C3 C4 C5 C6 C7 C8 C9 C10 C11 C12 C13 C14 C15 C16 C17 C18] Hh Hm HC.
+  intros [C1 C2 C3 C4 C5 C6 C7 C8 C9 C10 C11 C12 C13 C14 C15 C16 C17 C18 C19 C20 C21 C22 C23 C24 C25] Hh Hm HC.
   pose proof (proj1 (mem_In _ _) Hm) as Hin.
   destruct x; cbn [cm_reply_rec];
     (constructor; try solve [hsolve]; try solve [call_other C18]).
@@ -139,7 +168,7 @@ Qed.
 Lemma ht_cm_reply_other pre T r C ks x c :
   HT T pre c -> has_prim c ks = false -> HT T (pre ++ [ECmReply r T C ks x]) c.
 Proof.
-  intros [C1 C2 C3 C4 C5 C6 C7 C8 C9 C10 C11 C12 C13 C14 C15 C16 C17 C18] Hp.
+  intros [C1 C2 C3 C4 C5 C6 C7 C8 C9 C10 C11 C12 C13 C14 C15 C16 C17 C18 C19 C20 C21 C22 C23 C24 C25] Hp.
   assert (Hm : cn c FHasm <> 0 -> mem (cn c FPrim) ks = false).
   { intros Hh. unfold has_prim in Hp. apply fb_true in Hh. rewrite Hh in Hp. exact Hp. }
   constructor; try solve [hsolve]; try solve [call_other C18].
@@ -154,7 +183,7 @@ Qed.
 Lemma ht_rb_send pre T r ks c :
   HT T pre c -> HT T (pre ++ [ERbSend r T ks]) (setn c FDead 1).
 Proof.
-  intros [C1 C2 C3 C4 C5 C6 C7 C8 C9 C10 C11 C12 C13 C14 C15 C16 C17 C18].
+  intros [C1 C2 C3 C4 C5 C6 C7 C8 C9 C10 C11 C12 C13 C14 C15 C16 C17 C18 C19 C20 C21 C22 C23 C24 C25].
   constructor; try solve [hsolve]; try solve [call_other C18].
   csimp. intros. discriminate.
 Qed.
